@@ -450,6 +450,22 @@ theorem self_assignment_pool (c : Cfg) (o : TargetOpts) (n : Nat) (doneAt : Int)
       simp [selectTransport, addTarget, h, h2, newHTTPProxy, newTransport, setConfigWith, Cell.init, Cfg.zero, poolKept,
         idleCloseAt, effectiveMaxIdle]
 
+/-- `proxy.dialtimeout` is the one the proxy uses: an upstream that accepts no connection gets the client a 504
+after the configured dial timeout on whichever transport is selected, whatever the response-header timeout. -/
+theorem unreachable_upstream_504_at_dial_timeout (s : Cell) (c : Cfg) (o : TargetOpts) (hD : 0 < c.dialTimeout) :
+    serveUnreachable (selectTransport (newHTTPProxy (setConfig s c)) (addTarget (setConfig s c) o)) = some (504, c.dialTimeout) := by
+  obtain ⟨_, _, _, h4, _⟩ := selected_transport_uses_config s c o
+  simp only [serveUnreachable, h4, hD, if_true, errorStatus]
+
+/-- D23 at the dial phase: the self-assignment leaves the proxy without a dial timeout. -/
+theorem self_assignment_dial_unbounded (c : Cfg) (o : TargetOpts) :
+    let s := setConfigWith .parameter Cell.init c
+    serveUnreachable (selectTransport (newHTTPProxy s) (addTarget s o)) = none := by
+  by_cases h : o.host ≠ "" ∧ o.host ≠ "dst" ∧ o.https
+  · simp [selectTransport, addTarget, h, newTransport, setConfigWith, Cell.init, Cfg.zero, serveUnreachable]
+  · by_cases h2 : o.tlsSkipVerify <;>
+      simp [selectTransport, addTarget, h, h2, newHTTPProxy, newTransport, setConfigWith, Cell.init, Cfg.zero, serveUnreachable]
+
 /-! ### From what the operator wrote to the transports (`config.Load` → `SetConfig` → `NewTransport`) -/
 
 /-- What `load` returns, option by option. -/
@@ -619,6 +635,7 @@ example : load { cmdline := [("proxy.dialtimeout", "3sec")], env := [], props :=
 -- five connections become idle at 1 s; proxy.maxconn = 3, idle timeout 15 s: two closed at once, three at 16 s
 example : poolFate (newTransport (setConfig Cell.init { cfgEx with maxConn := 3 }) none) 5 1000000000
     = [some 1000000000, some 1000000000, some 16000000000, some 16000000000, some 16000000000] := by decide
+example : serveUnreachable (newTransport (setConfig Cell.init cfgEx) none) = some (504, 30000000000) := by decide
 example : errorStatus .netTimeout = 504 ∧ errorStatus .netOther = 502 ∧ errorStatus .canceled = 499 := by decide
 
 end Fabio.Props.C19
